@@ -42,12 +42,12 @@ def units_for(prop):
 
 
 def load_known_findings():
-    p = os.path.join(VERIF, 'known_findings.jsonl')
+    p = os.path.join(VERIF, 'known_findings.txt')
     out = []
     if os.path.exists(p):
         for l in open(p, encoding='utf-8'):
             l = l.strip()
-            if l and not l.startswith('#'):
+            if l.startswith('{'):
                 out.append(json.loads(l))
     return out
 
